@@ -37,6 +37,8 @@ where
     ///
     /// If the bounds aren't valid for the given string data then None is returned.
     pub fn new(string: Ptr<String>, bounds: Range<usize>) -> Option<Self> {
+        // Reject bounds that are out of range or that don't lie on char boundaries
+        string.get(bounds.clone())?;
         try_from_range(&bounds).map(|bounds| Self {
             data: string,
             bounds,
